@@ -155,9 +155,11 @@ CHECKS = {
             "(P2), save_for_backward and the unpacking of saved_tensors agree on what precedes / follows the "
             "representation (P3), every apply site passes the number of fixed arguments the forward expects for its "
             "layout flag and no self.X in the slot of another parameter X (P4), and backward rebuilds the operator from "
-            "the saved representation slice (P6). PyTorch checks tuple length only on executed paths and the tests set "
+            "the saved representation slice (P6); every hand-written _bilinear_derivative (17 return sites in 14 classes) "
+            "returns its segments - one gradient per tensor argument, the sub-operator's tuple per operator argument - in "
+            "the order in which the constructor record flattens the representation (P5). PyTorch checks tuple length only on executed paths and the tests set "
             "requires_grad on everything, so misaligned indices / shifted prefixes on requires_grad subsets are "
-            "invisible to them. NOT decided: gradient VALUES, hand-written _bilinear_derivative layouts.",
+            "invisible to them. NOT decided: gradient VALUES, swaps among same-kind tensor slots.",
             TRUST, "DESIGN.md section 3, C07"),
     "C08": (True,
             "backward data dependence (in-place methods and out= keywords as definitions) and dominance / reachability "
